@@ -51,11 +51,13 @@ Proof. exact C10_speculation_free_gen. Qed.
 (* The same with the hypothesis a caller can observe.  [terminated st]: nothing failed and
    can_terminate() holds (the workers may exit); that the order is then empty (every confirmed
    block has been written) is a theorem: the ownership invariant of order_q (SchedX/XOwn.v).
-   [opreach]: as [oreach], and every POk label advances the parser's bit position by at least
-   HDR_MIN = 32 bits.  That holds of parse() (parse.c): it returns OK only after it has consumed
-   the 48-bit block magic and the 32-bit block CRC in the same call.  The model's parse1 admits
-   POk labels without progress, and with them the statement is false of the model
-   (Properties_C11x.C11x_order_empty_without_progress_refuted). *)
+   [opreach]: as [oreach], and every POk label lies at least HDR_MIN = 32 bits after the base of the
+   block confirmed before it (SchedX/XOwn.v ev_prog).  That holds of parse() (parse.c): a block header
+   is 80 bits and OK is returned only when all of it has been consumed - possibly over several calls
+   that return MORE when the header straddles input blocks, which is why the hypothesis refers to the
+   previous base and not to the parser's position at the start of the last call; every trace replay
+   checks it.  The model's parse1 admits POk labels without progress, and with them the statement is
+   false of the model (Properties_C11x.C11x_order_empty_without_progress_refuted). *)
 Theorem C10_speculation_free_terminated :
   forall (O : oracle) n tin tout ultra st L R,
     opreach O gen_cfg (init_state n tin tout ultra) st -> SeqDec O 0 0 L R ->
